@@ -2,8 +2,8 @@
 (C01, C03, C10, C11).  Contracts marked `bounded_only` are evaluated at run time
 around the real functions (layer B) and are NOT counted as proved until the
 flag is removed."""
-from pyvc.sorts import BOOL, INT, STR, ListSort, SetSort
-from specs.xsm import Node, Trans, Ev
+from pyvc.sorts import BOOL, INT, STR, ListSort, SetSort, OptSort
+from specs.xsm import Node, Trans, Ev, Act, Callable_
 
 BI = "xstate_statemachine.base_interpreter:BaseInterpreter."
 SI = "xstate_statemachine.sync_interpreter:SyncInterpreter."
@@ -17,7 +17,7 @@ def register(w):
     def _(c):
         c.bounded_only = True
         c.param("transition", Trans).param("event", Ev)
-        c.mod(A, "self._history", "self.context", "self.status", "self.output", "self.error", "self._action_depth", *TASKS)
+        c.mod(A, "self._history", "self.context", "self.status", "self.output", "self.error", "self._action_depth", "self._event_queue", "self.g_accepted", *TASKS)
         c.req(f"legal({A})", "transition != None and transition.source in " + A)
         c.ens(f"legal({A})", label="legal-after-transition")
         c.may_raise("Exception", ensures=[f"set_eq({A}, old({A}))"])
@@ -49,24 +49,103 @@ def register(w):
         c.param("state", Node)
         c.mod("self._after_events", "self._after_threads")
 
-    @w.contract(SI + "_execute_actions", also=["xstate_statemachine.interpreter:Interpreter._execute_actions"], props=["C07"])
+    # ---- running one action list (C07 containment) ----------------------------------------------------
+    Q_, ACC_ = "self._event_queue", "self.g_accepted"
+    EFFECT = ["self.context", "self.status", "self.output", "self.error", "self._action_depth", *TASKS, Q_, ACC_]
+    APPENDED = f"appended_only(old({Q_}), old({ACC_}), {Q_}, {ACC_})"
+    KEEP = ["status_reach(old(self.status), self.status)", "ghost:" + APPENDED]
+
+    def exec_actions_clauses(c):
+        c.param("actions", ListSort(Act)).param("event", Ev)
+        c.mod(*EFFECT)
+        # model-only precondition: actions run while an event is being processed, so a send() made by an
+        # action only appends (SyncInterpreter.send: event-sent-during-processing-is-queued-not-run-re-entrantly)
+        c.req("ghost:self._is_processing")
+        c.req("forall[int](lambda i: implies(0 <= i and i < len(actions), actions[i] != None))")
+        c.ens("self._action_depth == old(self._action_depth)", label="action-depth-restored")
+        c.ens(KEEP[0], label="status-moves-along-allowed-edges")
+        c.ens(APPENDED, label="ghost:queue-append-only")
+        # only configuration errors escape - never what a user action or a built-in raised (C07: contained, rest of the list skipped)
+        for x in ("ImplementationMissingError", "NotSupportedError", "ActorSpawningError", "FactoryExc"):
+            c.may_raise(x, ensures=["self._action_depth == old(self._action_depth)", *KEEP])
+
+    @w.contract(SI + "_execute_actions", props=["C07"])
     def _(c):
-        c.trusted = ("assumed: user actions and built-ins change only context / output / error / status(via _fail,_complete) "
-                     "and the event queue (A-user: never _active_state_nodes or _history); a user action that raises is contained; "
-                     "only configuration errors (an Exception subclass) escape")
-        c.param("actions", ListSort(Ev.__class__ and __import__('specs.xsm', fromlist=['Act']).Act)).param("event", Ev)
-        c.mod("self.context", "self.status", "self.output", "self.error", "self._action_depth", *TASKS)
-        c.may_raise("Exception")
+        exec_actions_clauses(c)
+        c.no_runtime = False
+        c.user_effect = "action"
+        c.ghost("nran", INT, init="0")           # actions of this list that ran to completion
+        c.ghost("failed", BOOL, init="False")    # one of them raised and was contained
+        c.after("self._spawn_actor(action_def, event)", "nran = nran + 1")
+        c.after("self._execute_builtin_action(canonical, action_def, event)", "nran = nran + 1")
+        c.after("action_impl(self, self.context, event, action_def)", "nran = nran + 1")
+        c.before("return#2", "failed = True")
+        c.before("return#3", "failed = True")
+        c.ens("implies(not final_failed, final_nran == len(actions))", label="ghost:every-action-runs-unless-one-fails")
+        c.ens("implies(final_failed, final_nran < len(actions))", label="ghost:a-failure-skips-the-rest-of-this-list-only")
+        c.loop(0, inv=["nran == _i", "not failed", "self._action_depth == old(self._action_depth)", KEEP[0], APPENDED])
+        for k in (1, 2, 3):
+            c.loop(k, inv=[])
+
+    @w.contract("xstate_statemachine.interpreter:Interpreter._execute_actions", props=["C07"])
+    def _(c):
+        c.trusted = ("assumed for the asyncio engine (same clauses as the proved SyncInterpreter._execute_actions; the async body awaits "
+                     "coroutine actions, which the VC generator does not model); bounded: bounded.c07 fault injection on both engines")
+        exec_actions_clauses(c)
+
+    @w.contract(SI + "_execute_builtin_action", also=["xstate_statemachine.interpreter:Interpreter._execute_builtin_action"], props=["C07"])
+    def _(c):
+        c.trusted = ("assumed: a built-in action (raise/sendTo/assign/log/cancel/pure/choose ...) changes context/output/error/status and the "
+                     "timer/actor tables, reaches the queue only through send(), restores _action_depth (try/finally), and may raise anything")
+        c.no_runtime = True
+        c.param("canonical", STR).param("action_def", Act).param("event", Ev)
+        c.mod(*EFFECT)
+        c.req("ghost:self._is_processing")
+        c.ens("self._action_depth == old(self._action_depth)", KEEP[0])
+        c.ens(APPENDED, label="ghost:queue-append-only")
+        c.may_raise("Exception", ensures=["self._action_depth == old(self._action_depth)", *KEEP])
+
+    @w.contract(SI + "_spawn_actor", also=["xstate_statemachine.interpreter:Interpreter._spawn_actor"], props=["C07", "C15"])
+    def _(c):
+        c.trusted = ("assumed: registers a child actor (self._actors / system registry); a blocking child may send events back (append-only); "
+                     "raises ActorSpawningError for a bad service, or whatever the user's factory raises (FactoryExc)")
+        c.no_runtime = True
+        c.param("action_def", Act).param("event", Ev).param("on_complete", OptSort(STR))
+        c.defaults = {"on_complete": "None"}
+        c.mod("self.context", *TASKS, Q_, ACC_)
+        c.ens(APPENDED, label="ghost:queue-append-only")
+        c.may_raise("ActorSpawningError", ensures=["ghost:" + APPENDED])
+        c.may_raise("FactoryExc", ensures=["ghost:" + APPENDED])
+
+    @w.contract(SI + "_is_async_callable", props=["C07"])
+    def _(c):
+        c.trusted = "assumed total and effect-free (inspects __code__.co_flags of a python callable: outside the modelled value domain)"
+        c.no_runtime = True
+        c.param("callable_obj", Callable_).returns(BOOL)
+
+    AC = "xstate_statemachine.actions:"
+
+    @w.contract(AC + "resolve_builtin", props=["C07"])
+    def _(c):
+        c.param("action_type", STR).returns(OptSort(STR))
+        c.ens("(result != None) == (action_type in BUILTIN_ACTION_ALIASES)", label="canonical-name-iff-alias-known")
+
+    @w.contract(AC + "is_builtin", props=["C07"])
+    def _(c):
+        c.param("action_type", STR).returns(BOOL)
+        c.ens("result == (action_type in BUILTIN_ACTION_ALIASES)", label="true-iff-alias-known")
 
     @w.contract(BI + "_exit_states", also=[SI + "_exit_states"], props=["C01", "C03"])
     def _(c):
         c.param("states_to_exit", ListSort(Node)).param("event", Ev)
         c.defaults = {"event": "None"}
-        c.mod(A, "self._history", "self.context", "self._action_depth", "self.status", "self.output", "self.error", *TASKS)
+        c.mod(A, "self._history", "self.context", "self._action_depth", "self.status", "self.output", "self.error", *TASKS, Q_, ACC_)
         c.req("forall[int](lambda i: implies(0 <= i and i < len(states_to_exit), states_to_exit[i] != None))")
+        c.req("ghost:self._is_processing")        # exit actions run while an event is being processed (see _execute_actions)
         c.ens(f"forall[Node](lambda n: (n in {A}) == (n in old({A}) and not (n in states_to_exit)))", label="removes-exactly-the-listed-states")
-        c.may_raise("Exception", ensures=[f"forall[Node](lambda n: implies(n in {A}, n in old({A})))"])
+        c.ens(APPENDED, label="ghost:queue-append-only")
+        c.may_raise("Exception", ensures=[f"forall[Node](lambda n: implies(n in {A}, n in old({A})))", "ghost:" + APPENDED])
         INV = f"forall[Node](lambda n: (n in {A}) == (n in old({A}) and not exists[int](lambda k: 0 <= k and k < _i and states_to_exit[k] == n)))"
-        c.loop(0, inv=[INV], body="BaseInterpreter._exit_states")
-        c.loop(0, inv=[f"set_eq({A}, old({A}))"], body="SyncInterpreter._exit_states")     # first pass only cancels timers
-        c.loop(1, inv=[INV], body="SyncInterpreter._exit_states")
+        c.loop(0, inv=[INV, APPENDED], body="BaseInterpreter._exit_states")
+        c.loop(0, inv=[f"set_eq({A}, old({A}))", APPENDED], body="SyncInterpreter._exit_states")     # first pass only cancels timers
+        c.loop(1, inv=[INV, APPENDED], body="SyncInterpreter._exit_states")
